@@ -186,6 +186,10 @@ func (v *V2) ReadIndex(path string) ([]byte, error) {
 	if err = idFile.Close(); err != nil {
 		return nil, errors.Wrapf(err, "failed to close segment index file %s", path)
 	}
+	if uint32(len(indexBuf)) < v.GetIndexHeaderSize()+4 {
+		// The file is shorter than its checksum plus one entry: a torn write (the index is not synced)
+		return nil, errors.Wrapf(ErrDataCorrupted, " index file too short: %d bytes", len(indexBuf))
+	}
 	expectedCrc := ReadInt(indexBuf, 0)
 	actualCrc := crc.Checksum(0).Update(indexBuf[v.GetIndexHeaderSize():]).Value()
 	if expectedCrc != actualCrc {
